@@ -47,7 +47,7 @@ class FuncContract:
                  loops=None, at_yield=(), modifies=(), generator=False,
                  ghosts=None, cls=None, assumed=False, note="",
                  on_abandon=(), locals_=None, reads_async=False,
-                 verify=True, pure=False):
+                 verify=True, pure=False, at_call=None):
         self.module = module
         self.qualname = qualname
         self.props = list(props)
@@ -76,6 +76,7 @@ class FuncContract:
         self.locals = dict(locals_ or {})
         self.verify = verify
         self.pure = pure
+        self.at_call = {k: _clauses(v, props) for k, v in (at_call or {}).items()}
 
     @property
     def key(self):
